@@ -232,6 +232,14 @@ def run(rep, tier, seed):
                 keep = [d for d in range(D) if 0 <= d + s < D]
                 if not numpy.array_equal(back.data[keep], u.data[keep]):
                     rep.violation("shift(-s) o shift(s) D=%d s=%d" % (D, s), {})
+                # the same round trip done in place on a part of a larger polynomial: out= a view of the object that is shifted
+                big = UTPM(numpy.arange(1, 1 + D * 2 * 5).reshape(D, 2, 5).astype(float)); orig = big.data.copy()
+                try:
+                    big[1:4].shift(s, out=big[1:4]); big[1:4].shift(-s, out=big[1:4])
+                    if not (numpy.array_equal(big.data[keep][:, :, 1:4], orig[keep][:, :, 1:4]) and numpy.array_equal(big.data[:, :, [0, 4]], orig[:, :, [0, 4]])):
+                        rep.violation("shift(s) then shift(-s) in place (out= a view of the shifted object) loses the retained part D=%d s=%d" % (D, s), {})
+                except Exception as ex:
+                    rep.violation("in-place shift raises %s D=%d s=%d" % (type(ex).__name__, D, s), {"what": repr(ex)[-200:]})
             rep.replayed(1)
     # block containers and coefficient extraction: numpy.block / plain slicing on every coefficient slice as reference
     for it in range(6 if q else 30):
